@@ -219,6 +219,9 @@ pub enum EvOp {
 
 #[derive(Clone, Debug, Serialize, Deserialize, Hash)]
 pub struct EvCase {
+    /// files in the directory that are not event files (e.g. the `<nano>.tmp` of a write that was interrupted): they count too
+    #[serde(default)]
+    pub stray: usize,
     pub cap: usize,
     pub initial: usize,
     pub ops: Vec<EvOp>,
@@ -226,7 +229,7 @@ pub struct EvCase {
 
 pub fn ev_strategy() -> impl Strategy<Value = EvCase> {
     let op = prop_oneof![4 => (1u16..40).prop_map(EvOp::Burst), 1 => (100u16..900).prop_map(EvOp::Burst), 1 => (1u8..4).prop_map(EvOp::Consume), 5 => Just(EvOp::Wait)];
-    (1usize..6, 0usize..9, prop::collection::vec(op, 2..16)).prop_map(|(cap, initial, ops)| EvCase { cap, initial, ops })
+    (1usize..6, 0usize..9, prop::collection::vec(op, 2..16), prop_oneof![3 => Just(0usize), 1 => 1usize..3]).prop_map(|(cap, initial, ops, stray)| EvCase { stray, cap, initial, ops })
 }
 
 pub fn eval_ev(case: &EvCase, stats: &mut Stats) -> Outcome {
@@ -234,10 +237,14 @@ pub fn eval_ev(case: &EvCase, stats: &mut Stats) -> Outcome {
     for i in 0..case.initial {
         std::fs::write(dir.join(format!("15778368{:011}.json", i)), b"[]").unwrap();
     }
+    for i in 0..case.stray {
+        std::fs::write(dir.join(format!("15778367{:011}.tmp", i)), b"[{\"interrupted").unwrap();
+    }
+    let initial = case.initial + case.stray;
     let rt = tokio::runtime::Builder::new_current_thread().enable_all().build().unwrap();
     let d2 = dir.clone();
     let cap = case.cap;
-    let mut reached = case.initial >= case.cap;
+    let mut reached = initial >= case.cap;
     let mut went_on = false;
     let r: Result<(), (String, String)> = rt.block_on(async {
         tokio::spawn(async move {
@@ -271,8 +278,8 @@ pub fn eval_ev(case: &EvCase, stats: &mut Stats) -> Outcome {
                             return Err(("events:file-written-although-directory-at-cap".to_string(), format!("op {}: {} files before the flush (cap {}), {} after", i, before, cap, after)));
                         }
                     }
-                    if after > cap.max(case.initial) {
-                        return Err(("events:more-files-than-cap".to_string(), format!("op {}: {} files with cap {} (initially {})", i, after, cap, case.initial)));
+                    if after > cap.max(initial) {
+                        return Err(("events:more-files-than-cap".to_string(), format!("op {}: {} files with cap {} (initially {}, {} of them not event files)", i, after, cap, initial, case.stray)));
                     }
                     let _ = pending_events;
                     pending_events = false;
@@ -400,4 +407,4 @@ pub fn eval_stop(case: &StopCase, stats: &mut Stats) -> Outcome {
     Outcome::Pass
 }
 
-pub const RULE: &str = "three engines on instance APIs. rolling log: RollingLogger::create_new(dir, name, size limit 64..4096, count 1..6) on a directory left by an earlier run with the same settings (0..count files, possibly at the bound, current file possibly over the limit); ops Write(n), WriteMany([n..]), Restart (new instance on the same directory), 1-59 ops; after EVERY op: files of the log <= count and every file <= limit + largest single write so far. rule dumps: AuthorizationRulesForLogging::write_all(dir, max 1..6) on directories holding 0..9 earlier dumps, 1-9 calls with varying max; after every call: exactly one new dump, dumps <= max, survivors are the newest in creation order; in 20% of the histories a dangling symbolic link appears in the folder at some call (listing the folder may then fail): from then on only 'the number of dumps does not grow beyond max(max, what was there)' is asserted. event files: event_logger::start(dir, 1 ms, cap 1..5) over a directory pre-populated with 0..8 files; ops Burst(n events, 1-39 or 100-899), Consume(k oldest files, as the reader does), Wait(6 flush intervals); after every wait: file count <= max(cap, initial) and a flush that found the directory at the cap created no file. the final flush: each history in a child process (stop() closes a process-wide queue): pre-populated directory, bursts with or without waiting, then 0-7 events queued and stop() at once; after the logger task has ended: file count <= max(cap, initial). non-trivial: history that reaches the bound and continues, or starts at/over it, or stops at the cap with events queued; distinct by hash of the history.";
+pub const RULE: &str = "three engines on instance APIs. rolling log: RollingLogger::create_new(dir, name, size limit 64..4096, count 1..6) on a directory left by an earlier run with the same settings (0..count files, possibly at the bound, current file possibly over the limit); ops Write(n), WriteMany([n..]), Restart (new instance on the same directory), 1-59 ops; after EVERY op: files of the log <= count and every file <= limit + largest single write so far. rule dumps: AuthorizationRulesForLogging::write_all(dir, max 1..6) on directories holding 0..9 earlier dumps, 1-9 calls with varying max; after every call: exactly one new dump, dumps <= max, survivors are the newest in creation order; in 20% of the histories a dangling symbolic link appears in the folder at some call (listing the folder may then fail): from then on only 'the number of dumps does not grow beyond max(max, what was there)' is asserted. event files: event_logger::start(dir, 1 ms, cap 1..5) over a directory pre-populated with 0..8 event files and, in a quarter of the cases, 1-2 files that are not event files (the .tmp of an interrupted write); ops Burst(n events, 1-39 or 100-899), Consume(k oldest files, as the reader does), Wait(6 flush intervals); after every wait: file count <= max(cap, initial) and a flush that found the directory at the cap created no file. the final flush: each history in a child process (stop() closes a process-wide queue): pre-populated directory, bursts with or without waiting, then 0-7 events queued and stop() at once; after the logger task has ended: file count <= max(cap, initial). non-trivial: history that reaches the bound and continues, or starts at/over it, or stops at the cap with events queued; distinct by hash of the history.";
